@@ -129,6 +129,20 @@ def toolkit(case):
         if rk is None:
             continue
         out.append(dict(rec, rd2=Chem.MolToSmiles(rk), cs=text))
+    # the other toolkit's spellings (marks at closing ring digits, other first atoms, other neighbour orders) read by the library
+    for k in range(case.get('nrand', 3)):
+        t2 = Chem.MolToSmiles(r1, doRandom=True)
+        try:
+            m2 = smiles(t2)
+            m2.kekule()
+            m2.thiele()
+            r3 = Chem.MolFromSmiles(str(m2))
+        except Exception:
+            continue
+        if r3 is None or allene_or_other_stereo(m2):
+            continue
+        g2, _ = full_projection(m2, rings=True)
+        out.append(dict(rec, t=t2, rd2=Chem.MolToSmiles(r3), cs=str(m2), g=g2))
     return out
 
 
@@ -221,7 +235,9 @@ def run(ck):
     polycyclic = ['O=C1CC[C@H]2[C@@H]1CC[C@@H]1COC[C@H]21', 'C[C@]12CC[C@H]3[C@@H](CCc4cc(O)ccc34)[C@@H]1CC[C@@H]2O',
                   'C[C@@H]1C[C@H]2[C@@H]3CCC4=CC(=O)C=C[C@]4(C)[C@@]3(F)[C@@H](O)C[C@]2(C)[C@@]1(O)C(=O)CO', 'CN1[C@H]2CC[C@@H]1[C@H]([C@H](C2)OC(=O)c1ccccc1)C(=O)OC',
                   'C[C@H]1CC[C@@H]2[C@@H](C1)CC[C@H]1CCCC[C@@H]21'.replace('C[C@H]1CC', 'O[C@H]1CC'), 'O=C1N[C@@H]2CS[C@@H](CCCCC(=O)O)[C@@H]2N1']
-    add('toolkit', 'toolkit', [{'smi': s, 'rs': ck.seed * 31 + k, 'nrand': 3 if ck.quick else 10} for k, s in enumerate(CENTRES + DOUBLES + polycyclic + sel2)])
+    closures = ['C/C=C1CC(C)CCC\\1', 'C1(=C/C)CC(C)CCC/1', 'C1=C/CCCCCCC/1', 'C1=C\\CCCCCCC/1', 'C/C=C1/CCCC(C)C1', 'F/C=C1/CCCC(=O)C1', 'C[C@H]1CC[C@]2(CC1)CCO2', 'C[C@H]1CC[C@@]2(CC1)CCO2',
+                'O[C@H]1C[C@]2(C1)CCS2', 'O[C@H]1C[C@@]2(C1)CCS2', 'C[C@H]1CC[C@@H](O)CC1', 'C[C@H]1CC[C@H](O)CC1', 'C[C@@]12CCCC[C@H]1CCCC2', 'C1CC/C=C/CCC1']
+    add('toolkit', 'toolkit', [{'smi': s, 'rs': ck.seed * 31 + k, 'nrand': 3 if ck.quick else 10} for k, s in enumerate(CENTRES + DOUBLES + polycyclic + closures + sel2)])
     add('isomers', 'isomers', [{'smi': s} for s in ['C[C@H](N)O', 'C[C@H](O)[C@@H](N)CC', 'C[C@H](O)[C@@H](N)[C@H](F)CC', 'N[C@@H](C)C(=O)N[C@@H](CO)C(=O)O',
                                                      'C[C@H]1CC[C@@H](N)C(=O)O1', 'C[C@@H]1C[C@H](O)[C@@H](N)CO1'] + sel2])
     nonstereo = ['C[C@H](C)O', 'C[C@@H](C)C', 'F[C@H](F)Cl', 'C[C@](C)(N)O', 'C[C@H](N)O', 'CC[C@H](C)O', '[C@H](F)(Cl)Br', 'C[C@H]1CCCCC1', 'C[C@@](F)(Cl)C',
